@@ -5,6 +5,8 @@ package main
 // call sites; a call result is followed to what the callee returns.
 
 import (
+	"go/types"
+
 	"golang.org/x/tools/go/ssa"
 )
 
@@ -117,6 +119,112 @@ func reachFuncs(p *Prog, root *ssa.Function, pkg string) []*ssa.Function {
 	for _, f := range p.Funcs() {
 		if seen[f] {
 			out = append(out, f)
+		}
+	}
+	return out
+}
+
+// paramWeb: the values that carry parameter prm of f unchanged — prm itself, the parameters
+// of in-scope callees that receive it as an argument (transitively), free variables of
+// closures bound to it, and local cells it is stored into. Used so that "the limit
+// parameter is compared with 0" still holds after the comparison moved into a helper.
+func paramWeb(p *Prog, prm *ssa.Parameter) map[ssa.Value]bool {
+	web := map[ssa.Value]bool{prm: true}
+	cells := map[*ssa.Alloc]bool{}
+	is := func(v ssa.Value) bool {
+		v = stripConv(v)
+		if web[v] {
+			return true
+		}
+		if ld, ok := v.(*ssa.UnOp); ok {
+			if al, ok := ld.X.(*ssa.Alloc); ok && cells[al] {
+				return true
+			}
+			if fv, ok := ld.X.(*ssa.FreeVar); ok && web[fv] {
+				return true
+			}
+		}
+		return false
+	}
+	for changed := true; changed; {
+		changed = false
+		for _, f := range p.Funcs() {
+			if !p.InScope(f) {
+				continue
+			}
+			for _, b := range f.Blocks {
+				for _, in := range b.Instrs {
+					switch x := in.(type) {
+					case *ssa.Store:
+						if al, ok := x.Addr.(*ssa.Alloc); ok && is(x.Val) && !cells[al] {
+							cells[al] = true
+							changed = true
+						}
+					case *ssa.MakeClosure:
+						fn := x.Fn.(*ssa.Function)
+						for i, bv := range x.Bindings {
+							bound := is(bv)
+							if al, ok := bv.(*ssa.Alloc); ok && cells[al] {
+								bound = true
+							}
+							if bound && i < len(fn.FreeVars) && !web[fn.FreeVars[i]] {
+								web[fn.FreeVars[i]] = true
+								changed = true
+							}
+						}
+					case ssa.CallInstruction:
+						sc := x.Common().StaticCallee()
+						if sc == nil {
+							continue
+						}
+						if o := sc.Origin(); o != nil {
+							sc = o
+						}
+						if !p.InScope(sc) {
+							continue
+						}
+						for i, a := range callArgs(x.Common()) {
+							if is(a) && i < len(sc.Params) && !web[sc.Params[i]] {
+								web[sc.Params[i]] = true
+								changed = true
+							}
+						}
+					}
+				}
+			}
+		}
+	}
+	// loads of the cells count as members when asked through inWeb
+	for al := range cells {
+		web[al] = true
+	}
+	return web
+}
+
+// inWeb: v is (a load of) a member of the web.
+func inWeb(web map[ssa.Value]bool, v ssa.Value) bool {
+	v = stripConv(v)
+	if web[v] {
+		return true
+	}
+	if ld, ok := v.(*ssa.UnOp); ok {
+		return web[ld.X]
+	}
+	return false
+}
+
+// intParam: the parameter of f with basic type int (nil if none or several).
+func intParam(f *ssa.Function) *ssa.Parameter {
+	var out *ssa.Parameter
+	for i, prm := range f.Params {
+		if i == 0 && f.Signature.Recv() != nil {
+			continue
+		}
+		if isBasicKind(prm.Type(), types.Int) {
+			if out != nil {
+				return nil
+			}
+			out = prm
 		}
 	}
 	return out
